@@ -12,6 +12,7 @@ import (
 	"sort"
 	"strings"
 
+	"golang.org/x/mod/module"
 	"golang.org/x/tools/go/types/objectpath"
 )
 
@@ -123,6 +124,35 @@ var _ = func() bool {
 		sharedCache = nil
 		verifTransformers = map[string]*transformer{}
 		_, err := toolexecCmd("list", verifToks(a[2:]))
+		os.RemoveAll(os.Getenv("GARBLE_SHARED"))
+		if err != nil {
+			if sharedCache == nil {
+				sharedCache = &sharedCacheType{ListedPackages: newListedPackages()}
+			}
+			return "err " + verifHex([]byte(err.Error()))
+		}
+		return fmt.Sprintf("ok %d %s %s", len(sharedCache.ListedPackages.all()), verifHex(sharedCache.BinaryContentID), verifHex([]byte(sharedCache.GOGARBLE)))
+	}
+	// matchprefix <globs> <target> : golang.org/x/mod/module.MatchPrefixPatterns (library-level tie)
+	verifOps["matchprefix"] = func(a []string) string {
+		if module.MatchPrefixPatterns(string(verifUnhex(a[0])), string(verifUnhex(a[1]))) {
+			return "1"
+		}
+		return "0"
+	}
+	// loadcmd <command> <dir> <gogarble> <pattern...> : like load, for another top-level command ("test" adds -test)
+	verifOps["loadcmd"] = func(a []string) string {
+		if err := os.Chdir(string(verifUnhex(a[1]))); err != nil {
+			return "err chdir"
+		}
+		if g := string(verifUnhex(a[2])); g != "" {
+			os.Setenv("GOGARBLE", g)
+		} else {
+			os.Unsetenv("GOGARBLE")
+		}
+		sharedCache = nil
+		verifTransformers = map[string]*transformer{}
+		_, err := toolexecCmd(string(verifUnhex(a[0])), verifToks(a[3:]))
 		os.RemoveAll(os.Getenv("GARBLE_SHARED"))
 		if err != nil {
 			if sharedCache == nil {
